@@ -34,7 +34,7 @@ U(id="fib.continue_no_check", **{"class": "full-domain"},
          "status on return equals the returned signal; janet_vm.fiber/stackn/return_reg/signal_buf/coerce_error/gc_suspend restored on every path incl. longjmp; "
          "a child signal the child's mask does not accept is re-raised unchanged and not delivered to this fiber; *out == last_value == return register",
   src=["vm.c"], link=["fiber.c"], link_keep=KEEP, harness=["fib_continue.c"], entry="h_no_check",
-  mode="dfcc", enforce=["janet_continue_no_check/fib_no_check_c"], replace=RUNVM + ["janet_continue/fib_continue_child_c"], checks=CHK, cbmc=CADICAL,
+  mode="dfcc", enforce=["janet_continue_no_check/fib_no_check_c"], replace=RUNVM + ["janet_continue/fib_continue_child_c"], checks=CHK, cbmc=CADICAL, object_bits=8,
   functions=["janet_continue_no_check", "janet_try_init", "janet_restore"],
   assumes=["run_vm (interpreter loop) is replaced by the contract fib_run_vm_c: writes *fiber, janet_vm, *janet_vm.return_reg; returns a signal 0..13",
            "second return of setjmp = contract fib_setjmp_c: havocs what run_vm havocs, returns 1..13 (janet_signalv only longjmps with a JanetSignal; value 0 is mapped to 1 by longjmp)",
@@ -47,6 +47,29 @@ U(id="fib.continue_no_check", **{"class": "full-domain"},
     {"name": "child-mask-ignored", "file": "vm.c", "find": "        if (sig != JANET_SIGNAL_OK && !(child->flags & (1 << sig))) {\n            *out = in;", "replace": "        if (sig != JANET_SIGNAL_OK && !(fiber->flags & (1 << sig))) {\n            *out = in;", "expect": "postcondition|precondition"},
     {"name": "child-link-kept", "file": "vm.c", "find": "        fiber->child = NULL;\n    }\n\n    /* Handle new fibers", "replace": "    }\n\n    /* Handle new fibers", "expect": "precondition"},
     {"name": "stackn-unbalanced", "file": "vm.c", "find": "        janet_vm.stackn--;\n        if (janet_vm.root_fiber == fiber)", "replace": "        if (janet_vm.root_fiber == fiber)", "expect": "postcondition"},
+  ])
+
+CHKC = ["janet_check_can_resume/check_can_resume_c", "janet_continue_no_check/fib_no_check_c"]
+U(id="fib.continue", **{"class": "full-domain"},
+  clause="janet_continue: a finished fiber can never be resumed again (error signal, the VM is never entered, it stays finished); every refused resume leaves "
+         "frames/stack/child/env/last value untouched; an accepted resume returns with status == returned signal; VM registers restored",
+  src=["vm.c"], link=["fiber.c"], link_keep=KEEP, harness=["fib_check.c", "fib_continue.c"], entry="h_continue", defines=["-DFIB_NO_MSG"],
+  mode="dfcc", enforce=["janet_continue/fib_continue_c"], replace=CHKC + MSG, checks=CHK, cbmc=CADICAL, object_bits=8,
+  assumes=["janet_check_can_resume and janet_continue_no_check are replaced by their contracts (proved in fib.check_can_resume, fib.continue_no_check)"],
+  mutants=[
+    {"name": "check-result-ignored", "file": "vm.c", "find": "    JanetSignal tmp_signal = janet_check_can_resume(fiber, out, 0);\n    if (tmp_signal) return tmp_signal;", "replace": "    JanetSignal tmp_signal = janet_check_can_resume(fiber, out, 0);", "expect": "precondition|postcondition"},
+    {"name": "refusal-returns-ok", "file": "vm.c", "find": "    JanetSignal tmp_signal = janet_check_can_resume(fiber, out, 0);\n    if (tmp_signal) return tmp_signal;", "replace": "    JanetSignal tmp_signal = janet_check_can_resume(fiber, out, 0);\n    if (tmp_signal) return JANET_SIGNAL_OK;", "expect": "postcondition"},
+  ])
+U(id="fib.continue_signal", **{"class": "bounded"}, bound="chain of pending children below the fiber: at most 2 links (loop unwound 3x with unwinding assertion)",
+  clause="janet_continue_signal (cancel / resume with a signal): same protocol as janet_continue - a finished fiber cannot be cancelled or resumed, refusal leaves the fiber "
+         "untouched and never enters the VM, accepted => status == returned signal, VM registers restored",
+  src=["vm.c"], link=["fiber.c"], link_keep=KEEP, harness=["fib_check.c", "fib_continue.c"], entry="h_continue_signal", defines=["-DFIB_NO_MSG"],
+  mode="dfcc", enforce=["janet_continue_signal/fib_continue_signal_c"], replace=CHKC + MSG, checks=CHK, cbmc=CADICAL, object_bits=8,
+  unwindset={"janet_continue_signal.0": 4},
+  assumes=["janet_check_can_resume and janet_continue_no_check are replaced by their contracts (proved in fib.check_can_resume, fib.continue_no_check)"],
+  mutants=[
+    {"name": "check-result-ignored", "file": "vm.c", "find": "sig != JANET_SIGNAL_OK);\n    if (tmp_signal) return tmp_signal;", "replace": "sig != JANET_SIGNAL_OK);", "expect": "precondition|postcondition"},
+    {"name": "signal-flag-on-root-of-chain", "file": "vm.c", "find": "        while (child->child) child = child->child;\n", "replace": "", "expect": "."},
   ])
 
 json.dump({"units": units}, open(os.path.join(V, 'units', 'C05.json'), 'w'), indent=1)
